@@ -135,7 +135,7 @@ def match_known(known, prop, cname, oname, params):
 
 
 def write_replay(prop, rec, ob, idx):
-    d = os.path.join(ROOT, "replays", prop)
+    d = os.path.join(os.environ.get("PYVC_REPLAY_DIR", os.path.join(ROOT, "replays")), prop)
     os.makedirs(d, exist_ok=True)
     safe = "".join(ch if ch.isalnum() else "_" for ch in rec["contract"] + "__" + ob["name"])[:120]
     p = os.path.join(d, "%s__%d.json" % (safe, idx))
@@ -354,8 +354,9 @@ def check_property(prop, tier, seed, jobs=None, only=None, verbose=False):
         "wall_s": round(wall, 2),
         "violations": len(violations),
     }
-    os.makedirs(os.path.join(ROOT, "evidence"), exist_ok=True)
-    json.dump(ev, open(os.path.join(ROOT, "evidence", prop + ".json"), "w"), indent=1)
+    evdir = os.environ.get("PYVC_EVIDENCE_DIR", os.path.join(ROOT, "evidence"))
+    os.makedirs(evdir, exist_ok=True)
+    json.dump(ev, open(os.path.join(evdir, prop + ".json"), "w"), indent=1)
 
     for k, n in known_hits.values():
         print("KNOWN-FINDING: property=%s %s [%s; %d failing obligation(s)]" % (prop, k["what"], k["id"], n))
